@@ -215,49 +215,62 @@ Notation Iv := (Iv svc prod).
 Notation genuine := (genuine svc prod).
 
 (* who uses which cache: the bookkeeping that makes "close my own cache" harmless for everybody else *)
-Record OW (D : nat -> Prop) (w : world) : Prop := {
-  ow_fact : forall f fa, nth_error (w_factories w) f = Some fa -> cache_live D (fa_sk fa) /\ cache_live D (fa_ik fa);
-  ow_sess : forall s x, nth_error (w_sessions w) s = Some x -> ss_cached x = false /\ (ss_torn x = false -> cache_live D (ss_ik x));
+Record OW (cf : list nat) (D : nat -> Prop) (w : world) : Prop := {
+  ow_fact : forall f fa, nth_error (w_factories w) f = Some fa -> ~ In f cf -> cache_live D (fa_sk fa) /\ cache_live D (fa_ik fa);
+  ow_sess : forall s x, nth_error (w_sessions w) s = Some x ->
+      ss_cached x = false /\ (ss_torn x = false -> ss_own_ik x = true \/ ~ In (ss_factory x) cf -> cache_live D (ss_ik x));
   ow_dead : forall c, D c -> (c < length (w_caches w))%nat;
   ow_salloc : forall s x cid, nth_error (w_sessions w) s = Some x -> ss_ik x = Some cid -> (cid < length (w_caches w))%nat;
   ow_falloc : forall f fa cid, nth_error (w_factories w) f = Some fa -> fa_sk fa = Some cid \/ fa_ik fa = Some cid -> (cid < length (w_caches w))%nat;
   ow_uniq : forall s x cid, nth_error (w_sessions w) s = Some x -> ss_own_ik x = true -> ss_ik x = Some cid ->
       (forall s' x', nth_error (w_sessions w) s' = Some x' -> ss_ik x' = Some cid -> s' = s) /\
-      (forall f fa, nth_error (w_factories w) f = Some fa -> fa_sk fa <> Some cid /\ fa_ik fa <> Some cid) }.
+      (forall f fa, nth_error (w_factories w) f = Some fa -> fa_sk fa <> Some cid /\ fa_ik fa <> Some cid);
+  ow_funiq : forall f fa f' fa' cid, nth_error (w_factories w) f = Some fa -> nth_error (w_factories w) f' = Some fa' ->
+      fa_sk fa = Some cid \/ fa_ik fa = Some cid -> fa_sk fa' = Some cid \/ fa_ik fa' = Some cid -> f = f';
+  ow_shared : forall s x, nth_error (w_sessions w) s = Some x -> ss_own_ik x = false ->
+      exists fa, nth_error (w_factories w) (ss_factory x) = Some fa /\ ss_ik x = fa_ik fa }.
 
-Definition HILD (w : world) : Prop := exists D kinds H, IL D svc prod kinds H w /\ no_scache w /\ OW D w.
+(* cf: the factories whose Close has run (a ghost of the history; the model keeps no such flag) *)
+Definition HILD (cf : list nat) (w : world) : Prop := exists D kinds H, IL D svc prod kinds H w /\ no_scache w /\ OW cf D w.
 
 Definition benignD (o : hop) : Prop :=
   match o with
   | HNewFactory p s0 pr suf => s0 = svc /\ pr = prod /\ suf = None /\ Coherent.pol_ok p /\ p_cache_sessions p = false
-  | HCloseSession _ | HGetSession _ _ | HEncrypt _ _ _ | HDecrypt _ _ _ _ | HAdvance _ | HRevoke _ _ => True
+  | HCloseSession _ | HCloseFactory _ | HGetSession _ _ | HEncrypt _ _ _ | HDecrypt _ _ _ _ | HAdvance _ | HRevoke _ _ => True
   | _ => False
   end.
 
 (* the operation does not address a session whose Close has already run *)
-Definition open_sess (w : world) (s : nat) : Prop := forall x, nth_error (w_sessions w) s = Some x -> ss_torn x = false.
-Definition live_op (w : world) (o : hop) : Prop :=
+Definition open_sess (cf : list nat) (w : world) (s : nat) : Prop :=
+  forall x, nth_error (w_sessions w) s = Some x -> ss_torn x = false /\ ~ In (ss_factory x) cf.
+Definition untorn (w : world) (s : nat) : Prop := forall x, nth_error (w_sessions w) s = Some x -> ss_torn x = false.
+Definition live_op (cf : list nat) (w : world) (o : hop) : Prop :=
   match o with
-  | HEncrypt s _ _ | HDecrypt s _ _ _ | HCloseSession s => open_sess w s
+  | HEncrypt s _ _ | HDecrypt s _ _ _ => open_sess cf w s      (* its own Close has not run, nor its factory's *)
+  | HCloseSession s => untorn w s                              (* no double Close *)
+  | HCloseFactory f => ~ In f cf
   | _ => True
   end.
+Definition cf_after (cf : list nat) (o : hop) : list nat := match o with HCloseFactory f => f :: cf | _ => cf end.
 
-Lemma OW_sess_live D w s : OW D w -> open_sess w s -> sess_live D s w.
+Lemma OW_sess_live cf D w s : OW cf D w -> open_sess cf w s -> sess_live D s w.
 Proof.
-  intros O Op x fa Hs Hf. split; [exact (proj1 (ow_fact D w O _ fa Hf)) | exact (proj2 (ow_sess D w O s x Hs) (Op x Hs))].
+  intros O Op x fa Hs Hf. destruct (Op x Hs) as [T NF]. split; [exact (proj1 (ow_fact cf D w O _ fa Hf NF)) | exact (proj2 (ow_sess cf D w O s x Hs) T (or_intror NF))].
 Qed.
 
 (* the owner bookkeeping depends on the three tables only *)
-Lemma OW_same D w w' :
-  w_sessions w' = w_sessions w -> w_factories w' = w_factories w -> length (w_caches w') = length (w_caches w) -> OW D w -> OW D w'.
+Lemma OW_same cf D w w' :
+  w_sessions w' = w_sessions w -> w_factories w' = w_factories w -> length (w_caches w') = length (w_caches w) -> OW cf D w -> OW cf D w'.
 Proof.
-  intros E1 E2 E3 [A B C D1 D2 E]. constructor.
+  intros E1 E2 E3 [A B C D1 D2 E F G]. constructor.
   - intros f fa. rewrite E2. apply A.
   - intros s x. rewrite E1. apply B.
   - intros c Dc. rewrite E3. exact (C c Dc).
   - intros s x cid. rewrite E1, E3. apply D1.
   - intros f fa cid. rewrite E2, E3. apply D2.
   - intros s x cid Hs Ho Hi. rewrite E1 in Hs. destruct (E s x cid Hs Ho Hi) as [P Q]. split; [intros s' x' Hs'; rewrite E1 in Hs'; exact (P s' x' Hs') | intros f fa Hf; rewrite E2 in Hf; exact (Q f fa Hf)].
+  - intros f fa f' fa' cid. rewrite E2. apply F.
+  - intros s x. rewrite E1, E2. apply G.
 Qed.
 
 Lemma nth_error_snoc {A} (l : list A) x n y : nth_error (l ++ [x]) n = Some y -> (nth_error l n = Some y /\ (n < length l)%nat) \/ (y = x /\ n = length l).
@@ -282,19 +295,18 @@ Lemma new_session_shape f id fa w :
   nth_error (w_factories w) f = Some fa ->
   let w' := snd (new_session f id false w) in
   w_factories w' = w_factories w /\ (length (w_caches w) <= length (w_caches w'))%nat /\
-  exists x, w_sessions w' = w_sessions w ++ [x] /\ ss_cached x = false /\ ss_torn x = false /\
+  exists x, w_sessions w' = w_sessions w ++ [x] /\ ss_cached x = false /\ ss_torn x = false /\ ss_factory x = f /\
     ((ss_own_ik x = false /\ ss_ik x = fa_ik fa /\ length (w_caches w') = length (w_caches w)) \/
      (ss_own_ik x = true /\ ss_ik x = Some (length (w_caches w)) /\ length (w_caches w') = S (length (w_caches w))) \/
-     (ss_ik x = None /\ length (w_caches w') = length (w_caches w))).
+     (ss_own_ik x = true /\ ss_ik x = None /\ length (w_caches w') = length (w_caches w))).
 Proof.
   intro Ef. unfold new_session, get_factory, bind, gets, ret, upd, new_keycache. cbn. rewrite Ef. cbn.
   destruct (use_shared_ik (fa_policy fa)); [|destruct (p_cache_ik (fa_policy fa))]; cbn; rewrite ?app_length; cbn;
-    (split; [reflexivity|]; split; [lia|]; eexists; split; [reflexivity|]; split; [reflexivity|]; split; [reflexivity|]); cbn.
+    (split; [reflexivity|]; split; [lia|]; eexists; split; [reflexivity|]; split; [reflexivity|]; split; [reflexivity|]; split; [reflexivity|]); cbn.
   - left. repeat split.
   - right. left. repeat split; rewrite ?app_length; cbn; lia.
   - right. right. repeat split.
 Qed.
-
 
 Definition torn_copy (x : session) : session :=
   {| ss_factory := ss_factory x; ss_part := ss_part x; ss_ik := ss_ik x; ss_own_ik := ss_own_ik x; ss_cached := ss_cached x;
@@ -313,45 +325,84 @@ Lemma session_close_none s0 w : nth_error (w_sessions w) s0 = None -> session_cl
 Proof. intro Es. cbv beta iota delta [session_close bind get_session gets ret fail]. rewrite Es. reflexivity. Qed.
 
 (* marking a session closed *)
-Lemma OW_torn D w s0 x :
-  nth_error (w_sessions w) s0 = Some x -> OW D w -> OW D (with_sessions (set_nth s0 (torn_copy x) (w_sessions w)) w).
+Lemma OW_torn cf D w s0 x :
+  nth_error (w_sessions w) s0 = Some x -> OW cf D w -> OW cf D (with_sessions (set_nth s0 (torn_copy x) (w_sessions w)) w).
 Proof.
-  intros Es [A B C D1 D2 E].
+  intros Es [A B C D1 D2 E F G].
   assert (Look : forall s y, nth_error (set_nth s0 (torn_copy x) (w_sessions w)) s = Some y ->
             (s = s0 /\ y = torn_copy x) \/ (s <> s0 /\ nth_error (w_sessions w) s = Some y)).
   { intros s y Hy. destruct (Nat.eq_dec s s0) as [->|Ne].
     - left. rewrite (nth_error_set_nth_same _ _ _ _ Es) in Hy. inversion Hy. split; reflexivity.
     - right. rewrite nth_error_set_nth_other' in Hy by congruence. split; assumption. }
   assert (Old : forall s y, nth_error (set_nth s0 (torn_copy x) (w_sessions w)) s = Some y ->
-            exists y0, nth_error (w_sessions w) s = Some y0 /\ ss_ik y = ss_ik y0 /\ ss_own_ik y = ss_own_ik y0 /\ ss_cached y = ss_cached y0 /\ (ss_torn y = false -> ss_torn y0 = false)).
+            exists y0, nth_error (w_sessions w) s = Some y0 /\ ss_ik y = ss_ik y0 /\ ss_own_ik y = ss_own_ik y0 /\ ss_cached y = ss_cached y0 /\
+                       ss_factory y = ss_factory y0 /\ (ss_torn y = false -> ss_torn y0 = false)).
   { intros s y Hy. destruct (Look s y Hy) as [[-> ->]|[_ Hy0]].
     - exists x. split; [exact Es|]. cbn. repeat split. discriminate.
     - exists y. split; [exact Hy0|]. repeat split. tauto. }
   constructor; cbn [w_sessions w_factories w_caches with_sessions].
   - exact A.
-  - intros s y Hy. destruct (Old s y Hy) as [y0 [H0 [E1 [E2 [E3 E4]]]]]. destruct (B s y0 H0) as [P Q]. rewrite E3, E1. split; [exact P | intro T; exact (Q (E4 T))].
+  - intros s y Hy. destruct (Old s y Hy) as [y0 [H0 [E1 [E2 [E3 [E5 E4]]]]]]. destruct (B s y0 H0) as [P Q]. rewrite E3, E1, E2, E5. split; [exact P | intros T X; exact (Q (E4 T) X)].
   - exact C.
   - intros s y cid Hy Hi. destruct (Old s y Hy) as [y0 [H0 [E1 _]]]. rewrite E1 in Hi. exact (D1 s y0 cid H0 Hi).
   - exact D2.
   - intros s y cid Hy Ho Hi. destruct (Old s y Hy) as [y0 [H0 [E1 [E2 _]]]]. rewrite E1 in Hi. rewrite E2 in Ho.
     destruct (E s y0 cid H0 Ho Hi) as [P Q]. split; [|exact Q].
     intros s' y' Hy' Hi'. destruct (Old s' y' Hy') as [y1 [H1 [F1 _]]]. rewrite F1 in Hi'. exact (P s' y1 H1 Hi').
+  - exact F.
+  - intros s y Hy Ho. destruct (Old s y Hy) as [y0 [H0 [E1 [E2 [_ [E5 _]]]]]]. rewrite E2 in Ho. rewrite E1, E5. exact (G s y0 H0 Ho).
 Qed.
 
 (* the cache a closed session owned is dead *)
-Lemma OW_kill D w s0 x cid :
-  OW D w -> nth_error (w_sessions w) s0 = Some x -> ss_torn x = true -> ss_own_ik x = true -> ss_ik x = Some cid -> OW (Dplus D cid) w.
+Lemma OW_kill cf D w s0 x cid :
+  OW cf D w -> nth_error (w_sessions w) s0 = Some x -> ss_torn x = true -> ss_own_ik x = true -> ss_ik x = Some cid -> OW cf (Dplus D cid) w.
 Proof.
-  intros [A B C D1 D2 E] Es T Ho Hi. destruct (E s0 x cid Es Ho Hi) as [P Q].
+  intros [A B C D1 D2 E F G] Es T Ho Hi. destruct (E s0 x cid Es Ho Hi) as [P Q].
   constructor.
-  - intros f fa Hf. destruct (A f fa Hf) as [X Y]. destruct (Q f fa Hf) as [Q1 Q2].
+  - intros f fa Hf NF. destruct (A f fa Hf NF) as [X Y]. destruct (Q f fa Hf) as [Q1 Q2].
     split; intros c Ec [Dc|Eq]; [exact (X c Ec Dc) | congruence | exact (Y c Ec Dc) | congruence].
-  - intros s y Hy. destruct (B s y Hy) as [X Y]. split; [exact X|]. intros Ty c Ec [Dc|Eq]; [exact (Y Ty c Ec Dc)|].
+  - intros s y Hy. destruct (B s y Hy) as [X Y]. split; [exact X|]. intros Ty Z c Ec [Dc|Eq]; [exact (Y Ty Z c Ec Dc)|].
     subst c. pose proof (P s y Hy Ec) as Eqs. subst s. rewrite Es in Hy. inversion Hy; subst y. congruence.
   - intros c [Dc|Eq]; [exact (C c Dc) | subst c; exact (D1 s0 x cid Es Hi)].
   - exact D1.
   - exact D2.
   - exact E.
+  - exact F.
+  - exact G.
+Qed.
+
+(* SessionFactory.Close: the factory's own caches die (any subset of them, if the close stops half way); nobody else used them *)
+Lemma OW_close_factory cf (D D1 : nat -> Prop) w f fa :
+  OW cf D w -> nth_error (w_factories w) f = Some fa ->
+  (forall c, D c -> D1 c) -> (forall c, D1 c -> D c \/ fa_sk fa = Some c \/ fa_ik fa = Some c) ->
+  OW (f :: cf) D1 w.
+Proof.
+  intros [A B C D1' D2 E F G] Ef Sub Sup.
+  assert (Other : forall f' fa' c, nth_error (w_factories w) f' = Some fa' -> f' <> f -> fa_sk fa' = Some c \/ fa_ik fa' = Some c -> D1 c -> D c).
+  { intros f' fa' c Hf' Ne Hc Dc. destruct (Sup c Dc) as [X|X]; [exact X|]. exfalso. apply Ne. exact (F f' fa' f fa c Hf' Ef Hc X). }
+  constructor.
+  - intros f' fa' Hf' NI. assert (Ne : f' <> f) by (intro Eq; apply NI; left; congruence).
+    assert (NI' : ~ In f' cf) by (intro X; apply NI; right; exact X).
+    destruct (A f' fa' Hf' NI') as [X Y].
+    split; intros c Ec Dc; [exact (X c Ec (Other f' fa' c Hf' Ne (or_introl Ec) Dc)) | exact (Y c Ec (Other f' fa' c Hf' Ne (or_intror Ec) Dc))].
+  - intros s y Hy. destruct (B s y Hy) as [X Y]. split; [exact X|]. intros Ty Z c Ec Dc.
+    destruct (ss_own_ik y) eqn:Ho.
+    + (* an owned cache is no factory's cache *)
+      destruct (E s y c Hy Ho Ec) as [_ Q]. destruct (Sup c Dc) as [Dc0|[Xs|Xi]].
+      * exact (Y Ty (or_introl eq_refl) c Ec Dc0).
+      * exact (proj1 (Q f fa Ef) Xs).
+      * exact (proj2 (Q f fa Ef) Xi).
+    + destruct Z as [Z|Z]; [discriminate Z|].
+      assert (Ne : ss_factory y <> f) by (intro Eq; apply Z; left; congruence).
+      assert (Z' : ~ In (ss_factory y) cf) by (intro W; apply Z; right; exact W).
+      destruct (G s y Hy Ho) as [fa' [Hf' Ei]]. rewrite Ei in Ec.
+      exact (Y Ty (or_intror Z') c ltac:(rewrite Ei; exact Ec) (Other _ fa' c Hf' Ne (or_intror Ec) Dc)).
+  - intros c Dc. destruct (Sup c Dc) as [X|[X|X]]; [exact (C c X) | exact (D2 f fa c Ef (or_introl X)) | exact (D2 f fa c Ef (or_intror X))].
+  - exact D1'.
+  - exact D2.
+  - exact E.
+  - exact F.
+  - exact G.
 Qed.
 
 Lemma Iv_len kinds w : Iv kinds w -> length kinds = length (w_caches w).
@@ -372,24 +423,46 @@ Proof.
 Qed.
 
 
-Lemma OW_begin D fs w : OW D w -> OW D (begin_op fs w).
+Lemma OW_begin cf D fs w : OW cf D w -> OW cf D (begin_op fs w).
 Proof. apply OW_same; reflexivity. Qed.
 
-Theorem hstepD_inv h o : benignD o -> live_op (h_world h) o -> HILD (h_world h) -> HILD (h_world (snd (hstep h o))).
+Lemma factory_close_runD f w fa :
+  nth_error (w_factories w) f = Some fa -> fa_scache fa = None ->
+  factory_close f w = ((if use_shared_ik (fa_policy fa) then kc_close (fa_ik fa) else ret tt) ;;; kc_close (fa_sk fa)) w.
+Proof.
+  intros Ef Ns. cbv beta iota delta [factory_close bind get_factory gets ret fail]. rewrite Ef. cbv beta iota. rewrite Ns. reflexivity.
+Qed.
+
+Lemma factory_close_none f w : nth_error (w_factories w) f = None -> factory_close f w = (inl ErrPanic, w).
+Proof. intro Ef. cbv beta iota delta [factory_close bind get_factory gets ret fail]. rewrite Ef. reflexivity. Qed.
+
+(* keyCache.Close of an optional cache *)
+Definition Dopt (D : nat -> Prop) (c : option nat) : nat -> Prop := match c with Some cid => Dplus D cid | None => D end.
+
+Lemma kc_close_opt_L D H c :
+  cache_live D c ->
+  hoare (LInv D NoX H) (kc_close c) (fun _ w => LInv (Dopt D c) NoX H w) (fun w => LInv D NoX H w \/ Lge (Dopt D c) H w).
+Proof.
+  intro CL. destruct c as [cid|]; cbn [Dopt].
+  - exact (kc_close_L D H cid (CL cid eq_refl)).
+  - intros w L. cbn. exact L.
+Qed.
+
+Theorem hstepD_inv cf h o : benignD o -> live_op cf (h_world h) o -> HILD cf (h_world h) -> HILD (cf_after cf o) (h_world (snd (hstep h o))).
 Proof.
   intros B LO [D [kinds [H [HIL0 [NSc O]]]]].
-  destruct o; cbn [benignD] in B; try contradiction; cbn [hstep live_op] in *.
+  destruct o; cbn [benignD] in B; try contradiction; cbn [hstep live_op cf_after] in *.
   - (* new factory *)
     destruct B as [-> [-> [-> [PO NS]]]]. pose proof (IL_begin_op D svc prod kinds H [] _ HIL0) as [HI0 L0].
-    pose proof (OW_begin D [] _ O) as O0. assert (NS0 : no_scache (begin_op [] (h_world h))) by exact NSc.
+    pose proof (OW_begin cf D [] _ O) as O0. assert (NS0 : no_scache (begin_op [] (h_world h))) by exact NSc.
     set (w0 := begin_op [] (h_world h)) in *. clearbody w0.
     pose proof (new_factory_spec svc prod kinds p PO _ HI0) as X.
     pose proof (new_factory_L D svc prod H p PO NS w0 (conj L0 NS0)) as Y.
     pose proof (new_factory_shape p svc prod None w0) as [ES [LE [fa [EF FR]]]].
     destruct (new_factory p svc prod None w0) as [[er|a] w']; cbn [snd h_world] in *; [contradiction|].
     destruct X as [kinds' HI']. destruct Y as [L' N']. exists D, kinds', H. split; [split; assumption|]. split; [exact N'|].
-    destruct O0 as [A Bs C D1 D2 E]. constructor.
-    + intros f fa' Hf. rewrite EF in Hf. apply nth_error_snoc in Hf as [[Hf _]|[-> _]]; [exact (A f fa' Hf)|].
+    destruct O0 as [A Bs C D1 D2 E Fu G]. constructor.
+    + intros f fa' Hf NF. rewrite EF in Hf. apply nth_error_snoc in Hf as [[Hf _]|[-> _]]; [exact (A f fa' Hf NF)|].
       split; intros c Ec Dc; pose proof (C c Dc); [pose proof (FR c (or_introl Ec)) | pose proof (FR c (or_intror Ec))]; lia.
     + intros s x. rewrite ES. apply Bs.
     + intros c Dc. pose proof (C c Dc). lia.
@@ -398,32 +471,40 @@ Proof.
     + intros s x cid Hs Ho Hi. rewrite ES in Hs. destruct (E s x cid Hs Ho Hi) as [P Q]. split; [intros s' x' Hs'; rewrite ES in Hs'; exact (P s' x' Hs')|].
       intros f fa' Hf. rewrite EF in Hf. apply nth_error_snoc in Hf as [[Hf _]|[-> _]]; [exact (Q f fa' Hf)|].
       pose proof (D1 s x cid Hs Hi). split; intro Ec; [pose proof (FR cid (or_introl Ec)) | pose proof (FR cid (or_intror Ec))]; lia.
+    + intros f1 fa1 f2 fa2 cid Hf1 Hf2 Hc1 Hc2. rewrite EF in Hf1, Hf2.
+      apply nth_error_snoc in Hf1 as [[Hf1 Lt1]|[-> Eq1]]; apply nth_error_snoc in Hf2 as [[Hf2 Lt2]|[-> Eq2]].
+      * exact (Fu f1 fa1 f2 fa2 cid Hf1 Hf2 Hc1 Hc2).
+      * pose proof (D2 f1 fa1 cid Hf1 Hc1). pose proof (FR cid Hc2). lia.
+      * pose proof (D2 f2 fa2 cid Hf2 Hc2). pose proof (FR cid Hc1). lia.
+      * congruence.
+    + intros s x Hs Ho. rewrite ES in Hs. destruct (G s x Hs Ho) as [fa' [Hf' Ei]]. exists fa'. split; [|exact Ei].
+      rewrite EF. rewrite nth_error_app1; [exact Hf' | apply nth_error_Some; congruence].
   - (* get session *)
-    pose proof (IL_begin_op D svc prod kinds H [] _ HIL0) as HIL1. pose proof (OW_begin D [] _ O) as O0. set (w0 := begin_op [] (h_world h)) in *.
+    pose proof (IL_begin_op D svc prod kinds H [] _ HIL0) as HIL1. pose proof (OW_begin cf D [] _ O) as O0. set (w0 := begin_op [] (h_world h)) in *.
     assert (NS0 : no_scache w0) by exact NSc. clearbody w0.
     destruct (factory_get_session_run f id w0 NS0) as [R|[R|[fa [Ef R]]]]; rewrite R; cbn [snd h_world].
     + exists D, kinds, H. split; [exact HIL1 | split; assumption].
     + exists D, kinds, H. split; [exact HIL1 | split; assumption].
     + pose proof (new_session_spec svc prod kinds f id false w0 (proj1 HIL1)) as X.
       pose proof (new_session_L D svc prod kinds H f id false w0 (conj HIL1 NS0)) as Y.
-      pose proof (new_session_shape f id fa w0 Ef) as [EF [LE [x [ES [C1 [T1 Sh]]]]]].
+      pose proof (new_session_shape f id fa w0 Ef) as [EF [LE [x [ES [C1 [T1 [Fx Sh]]]]]]].
       assert (Fin : forall w', (exists kinds', Iv kinds' w') -> LInv D NoX H w' /\ no_scache w' ->
                 w_factories w' = w_factories w0 -> (length (w_caches w0) <= length (w_caches w'))%nat ->
                 w_sessions w' = w_sessions w0 ++ [x] ->
                 ((ss_own_ik x = false /\ ss_ik x = fa_ik fa /\ length (w_caches w') = length (w_caches w0)) \/
                  (ss_own_ik x = true /\ ss_ik x = Some (length (w_caches w0)) /\ length (w_caches w') = S (length (w_caches w0))) \/
-                 (ss_ik x = None /\ length (w_caches w') = length (w_caches w0))) -> HILD w').
+                 (ss_own_ik x = true /\ ss_ik x = None /\ length (w_caches w') = length (w_caches w0))) -> HILD cf w').
       { intros w' [kinds' HI'] [L' N'] EF' LE' ES' Sh'. exists D, kinds', H. split; [split; assumption|]. split; [exact N'|].
-        destruct O0 as [A Bs C D1 D2 E]. constructor.
+        destruct O0 as [A Bs C D1 D2 E Fu G]. constructor.
         - intros f0 fa0. rewrite EF'. apply A.
-        - intros s0 y Hy. rewrite ES' in Hy. apply nth_error_snoc in Hy as [[Hy _]|[-> _]]; [exact (Bs s0 y Hy)|]. split; [exact C1|]. intros _.
-          destruct Sh' as [[_ [Ei _]]|[[_ [Ei _]]|[Ei _]]]; rewrite Ei.
-          + exact (proj2 (A f fa Ef)).
+        - intros s0 y Hy. rewrite ES' in Hy. apply nth_error_snoc in Hy as [[Hy _]|[-> _]]; [exact (Bs s0 y Hy)|]. split; [exact C1|]. intros _ Z.
+          destruct Sh' as [[Eo [Ei _]]|[[_ [Ei _]]|[_ [Ei _]]]]; rewrite Ei.
+          + destruct Z as [Z|Z]; [congruence|]. rewrite Fx in Z. exact (proj2 (A f fa Ef Z)).
           + intros c Ec Dc. assert (Ecc : c = length (w_caches w0)) by congruence. rewrite Ecc in Dc. pose proof (C _ Dc) as Q. revert Q. clear. intro Q. lia.
           + intros c Ec. discriminate Ec.
         - intros c Dc. pose proof (C c Dc). lia.
         - intros s0 y cid Hy Hi. rewrite ES' in Hy. apply nth_error_snoc in Hy as [[Hy _]|[-> _]]; [pose proof (D1 s0 y cid Hy Hi); lia|].
-          destruct Sh' as [[_ [Ei _]]|[[_ [Ei El]]|[Ei _]]]; rewrite Ei in Hi.
+          destruct Sh' as [[_ [Ei _]]|[[_ [Ei El]]|[_ [Ei _]]]]; rewrite Ei in Hi.
           + pose proof (D2 f fa cid Ef (or_intror Hi)). lia.
           + inversion Hi; subst cid. lia.
           + discriminate Hi.
@@ -432,17 +513,20 @@ Proof.
           + destruct (E s0 y cid Hy Ho Hi) as [P Q]. split; [|intros f0 fa0 Hf; rewrite EF' in Hf; exact (Q f0 fa0 Hf)].
             intros s' y' Hy' Hi'. rewrite ES' in Hy'. apply nth_error_snoc in Hy' as [[Hy' _]|[-> _]]; [exact (P s' y' Hy' Hi')|]. exfalso.
             pose proof (D1 s0 y cid Hy Hi) as Al.
-            destruct Sh' as [[_ [Ei _]]|[[_ [Ei _]]|[Ei _]]]; rewrite Ei in Hi'.
+            destruct Sh' as [[_ [Ei _]]|[[_ [Ei _]]|[_ [Ei _]]]]; rewrite Ei in Hi'.
             * exact (proj2 (Q f fa Ef) Hi').
             * inversion Hi'; subst cid. lia.
             * discriminate Hi'.
-          + destruct Sh' as [[Eo _]|[[_ [Ei _]]|[Ei _]]]; [congruence| |congruence]. rewrite Ei in Hi. inversion Hi; subst cid. split.
+          + destruct Sh' as [[Eo _]|[[_ [Ei _]]|[_ [Ei _]]]]; [congruence| |congruence]. rewrite Ei in Hi. inversion Hi; subst cid. split.
             * intros s' y' Hy' Hi'. rewrite ES' in Hy'. apply nth_error_snoc in Hy' as [[Hy' _]|[_ Eq']]; [pose proof (D1 s' y' _ Hy' Hi'); lia | congruence].
-            * intros f0 fa0 Hf. rewrite EF' in Hf. split; intro Ec; [pose proof (D2 f0 fa0 _ Hf (or_introl Ec)) | pose proof (D2 f0 fa0 _ Hf (or_intror Ec))]; lia. }
+            * intros f0 fa0 Hf. rewrite EF' in Hf. split; intro Ec; [pose proof (D2 f0 fa0 _ Hf (or_introl Ec)) | pose proof (D2 f0 fa0 _ Hf (or_intror Ec))]; lia.
+        - intros f1 fa1 f2 fa2 cid. rewrite EF'. apply Fu.
+        - intros s0 y Hy Ho. rewrite ES' in Hy. rewrite EF'. apply nth_error_snoc in Hy as [[Hy _]|[-> _]]; [exact (G s0 y Hy Ho)|].
+          destruct Sh' as [[_ [Ei _]]|[[Eo _]|[Eo _]]]; [|congruence|congruence]. exists fa. rewrite Fx. split; assumption. }
       destruct (new_session f id false w0) as [[er|a] w']; cbn [snd h_world] in *; apply Fin; assumption.
   - (* encrypt *)
-    pose proof (IL_begin_op D svc prod kinds H faults _ HIL0) as HIL1. pose proof (OW_begin D faults _ O) as O0.
-    assert (SL : sess_live D s (begin_op faults (h_world h))) by (apply OW_sess_live; [exact O0 | exact LO]).
+    pose proof (IL_begin_op D svc prod kinds H faults _ HIL0) as HIL1. pose proof (OW_begin cf D faults _ O) as O0.
+    assert (SL : sess_live D s (begin_op faults (h_world h))) by (apply (OW_sess_live cf); [exact O0 | exact LO]).
     pose proof (encrypt_op_IL D svc prod kinds H s payload _ (conj HIL1 SL)) as X.
     assert (QF : qF (e <- session_env s;; encrypt_payload e (PPayload payload))) by (apply qF_bind; [apply qF_session_env | intro; apply qF_encrypt_payload]).
     assert (QS : qS (e <- session_env s;; encrypt_payload e (PPayload payload))) by (apply qS_bind; [apply qS_session_env | intro; apply qS_encrypt_payload]).
@@ -455,8 +539,8 @@ Proof.
   - (* decrypt *)
     destruct (nth_error (h_recs h) rec) as [r0|]; [|cbn [snd h_world]; exists D, kinds, H; split; [exact HIL0 | split; assumption]].
     set (r1 := fold_left (apply_mut (h_recs h)) muts r0).
-    pose proof (IL_begin_op D svc prod kinds H faults _ HIL0) as HIL1. pose proof (OW_begin D faults _ O) as O0.
-    assert (SL : sess_live D s (begin_op faults (h_world h))) by (apply OW_sess_live; [exact O0 | exact LO]).
+    pose proof (IL_begin_op D svc prod kinds H faults _ HIL0) as HIL1. pose proof (OW_begin cf D faults _ O) as O0.
+    assert (SL : sess_live D s (begin_op faults (h_world h))) by (apply (OW_sess_live cf); [exact O0 | exact LO]).
     pose proof (decrypt_op_IL D svc prod kinds H s r1 _ (conj HIL1 SL)) as X.
     assert (QF : qF (e <- session_env s;; decrypt_data_row_record e r1)) by (apply qF_bind; [apply qF_session_env | intro; apply qF_decrypt_data_row_record]).
     assert (QS : qS (e <- session_env s;; decrypt_data_row_record e r1)) by (apply qS_bind; [apply qS_session_env | intro; apply qS_decrypt_data_row_record]).
@@ -467,38 +551,97 @@ Proof.
       destruct X as [HI' [H' [_ L']]]; exists D, kinds, H'; (split; [split; assumption|]); (split; [exact N|]);
       (eapply OW_same; [exact ES | exact EF | rewrite <- (Iv_len kinds _ HI'), <- Len0; reflexivity | exact O0]).
   - (* Session.Close *)
-    pose proof (IL_begin_op D svc prod kinds H [] _ HIL0) as [HI0 L0]. pose proof (OW_begin D [] _ O) as O0.
-    assert (LO0 : open_sess (begin_op [] (h_world h)) s) by exact LO.
+    pose proof (IL_begin_op D svc prod kinds H [] _ HIL0) as [HI0 L0]. pose proof (OW_begin cf D [] _ O) as O0.
+    assert (LO0 : untorn (begin_op [] (h_world h)) s) by exact LO.
     assert (NS0 : no_scache (begin_op [] (h_world h))) by exact NSc.
     set (w0 := begin_op [] (h_world h)) in *. clearbody w0.
     pose proof (session_close_spec svc prod kinds s w0 HI0) as X.
     destruct (nth_error (w_sessions w0) s) as [x|] eqn:Es.
     2: { rewrite (session_close_none s w0 Es). cbn [snd h_world]. exists D, kinds, H. split; [split; assumption | split; assumption]. }
-    destruct (ow_sess D w0 O0 s x Es) as [C1 Lv]. pose proof (LO0 x Es) as T0.
+    destruct (ow_sess cf D w0 O0 s x Es) as [C1 Lv]. pose proof (LO0 x Es) as T0.
     rewrite (session_close_runD s w0 x Es C1) in X |- *.
     set (w1 := with_sessions (set_nth s (torn_copy x) (w_sessions w0)) w0) in *.
     assert (L1 : LInv D NoX H w1) by (eapply LInv_bookkeeping; [..|exact L0]; reflexivity).
-    assert (O1 : OW D w1) by exact (OW_torn D w0 s x Es O0).
+    assert (O1 : OW cf D w1) by exact (OW_torn cf D w0 s x Es O0).
     assert (NS1 : no_scache w1) by exact NS0.
     assert (Es1 : nth_error (w_sessions w1) s = Some (torn_copy x)) by (unfold w1; cbn; exact (nth_error_set_nth_same _ _ _ _ Es)).
     destruct (ss_own_ik x) eqn:Ho.
     2: { cbn [ret snd h_world] in *. exists D, kinds, H. split; [split; assumption | split; assumption]. }
     destruct (ss_ik x) as [cid|] eqn:Ei.
     2: { cbn [kc_close ret snd h_world] in *. exists D, kinds, H. split; [split; assumption | split; assumption]. }
-    assert (NDc : ~ D cid) by exact (Lv T0 cid eq_refl).
+    assert (NDc : ~ D cid) by exact (Lv T0 (or_introl eq_refl) cid eq_refl).
     pose proof (kc_close_L D H cid NDc w1 L1) as Y.
     pose proof (qS_kc_close (Some cid) w1) as ES. pose proof (qF_kc_close (Some cid) w1) as [EF _].
     pose proof (no_scache_qF _ w1 (qF_kc_close (Some cid)) NS1) as N2.
     assert (Len1 : length kinds = length (w_caches w1)) by exact (Iv_len kinds w0 HI0).
     destruct (kc_close (Some cid) w1) as [[er|u] w2]; cbn [snd h_world] in *.
-    + assert (O2 : OW D w2) by (eapply OW_same; [exact ES | exact EF | rewrite <- (Iv_len kinds _ X), <- Len1; reflexivity | exact O1]).
+    + assert (O2 : OW cf D w2) by (eapply OW_same; [exact ES | exact EF | rewrite <- (Iv_len kinds _ X), <- Len1; reflexivity | exact O1]).
       destruct Y as [Y|[H' [_ Y]]].
       * exists D, kinds, H. split; [split; assumption | split; assumption].
       * exists (Dplus D cid), kinds, H'. split; [split; assumption|]. split; [exact N2|].
-        apply (OW_kill D w2 s (torn_copy x) cid O2); [rewrite ES; exact Es1 | reflexivity | exact Ho | exact Ei].
-    + assert (O2 : OW D w2) by (eapply OW_same; [exact ES | exact EF | rewrite <- (Iv_len kinds _ X), <- Len1; reflexivity | exact O1]).
+        apply (OW_kill cf D w2 s (torn_copy x) cid O2); [rewrite ES; exact Es1 | reflexivity | exact Ho | exact Ei].
+    + assert (O2 : OW cf D w2) by (eapply OW_same; [exact ES | exact EF | rewrite <- (Iv_len kinds _ X), <- Len1; reflexivity | exact O1]).
       exists (Dplus D cid), kinds, H. split; [split; assumption|]. split; [exact N2|].
-      apply (OW_kill D w2 s (torn_copy x) cid O2); [rewrite ES; exact Es1 | reflexivity | exact Ho | exact Ei].
+      apply (OW_kill cf D w2 s (torn_copy x) cid O2); [rewrite ES; exact Es1 | reflexivity | exact Ho | exact Ei].
+  - (* SessionFactory.Close: the shared intermediate-key cache (if any), then the system-key cache *)
+    pose proof (IL_begin_op D svc prod kinds H [] _ HIL0) as [HI0 L0]. pose proof (OW_begin cf D [] _ O) as O0.
+    assert (NS0 : no_scache (begin_op [] (h_world h))) by exact NSc.
+    set (w0 := begin_op [] (h_world h)) in *. clearbody w0.
+    pose proof (factory_close_spec svc prod kinds f w0 HI0) as X.
+    destruct (nth_error (w_factories w0) f) as [fa|] eqn:Ef.
+    2: { rewrite (factory_close_none f w0 Ef). cbn [snd h_world]. exists D, kinds, H. split; [split; assumption|]. split; [exact NS0|].
+         destruct O0 as [A Bs C D1 D2 E Fu G]. constructor; try assumption.
+         - intros f' fa' Hf' NI. apply (A f' fa' Hf'). intro W. apply NI. right. exact W.
+         - intros s x Hs. destruct (Bs s x Hs) as [P Q]. split; [exact P|]. intros T [Z|Z]; [exact (Q T (or_introl Z)) | apply (Q T); right; intro W; apply Z; right; exact W]. }
+    rewrite (factory_close_runD f w0 fa Ef (NS0 f fa Ef)) in X |- *.
+    destruct (ow_fact cf D w0 O0 f fa Ef LO) as [LvS LvI].
+    set (c1 := if use_shared_ik (fa_policy fa) then fa_ik fa else None).
+    assert (E1 : (if use_shared_ik (fa_policy fa) then kc_close (fa_ik fa) else ret tt) = kc_close c1) by (unfold c1; destruct (use_shared_ik (fa_policy fa)); reflexivity).
+    rewrite E1 in X |- *.
+    assert (Lv1 : cache_live D c1) by (unfold c1; destruct (use_shared_ik (fa_policy fa)); [exact LvI | intros c Ec; discriminate Ec]).
+    assert (Sub1 : forall c, Dopt D c1 c -> D c \/ fa_ik fa = Some c).
+    { unfold c1. destruct (use_shared_ik (fa_policy fa)); [|intros c Dc; left; exact Dc]. destruct (fa_ik fa) as [ci|]; cbn [Dopt]; [|intros c Dc; left; exact Dc].
+      intros c [Dc|Eq]; [left; exact Dc | right; congruence]. }
+    (* the two caches of a factory are different caches *)
+    assert (Ne : forall cs, fa_sk fa = Some cs -> ~ Dopt D c1 cs).
+    { intros cs Es Dc. destruct (Sub1 cs Dc) as [Dc0|Ei]; [exact (LvS cs Es Dc0)|].
+      destruct HI0 as [_ [_ _ CF _]]. destruct (CF f fa Ef) as [_ [_ [_ [Ks [Ki _]]]]]. pose proof (Ks cs Es). pose proof (Ki cs Ei). congruence. }
+    pose proof (kc_close_opt_L D H c1 Lv1 w0 L0) as Y1.
+    pose proof (qS_kc_close c1 w0) as ES1. pose proof (qF_kc_close c1 w0) as [EF1 _].
+    pose proof (no_scache_qF _ w0 (qF_kc_close c1) NS0) as N1.
+    unfold bind in X |- *.
+    destruct (kc_close c1 w0) as [[er|u] w1]; cbn [snd h_world] in *.
+    { (* the first close failed: nothing further is closed *)
+      assert (Fin1 : forall D1 H1, LInv D1 NoX H1 w1 -> (forall c, D c -> D1 c) -> (forall c, D1 c -> D c \/ fa_sk fa = Some c \/ fa_ik fa = Some c) -> HILD (f :: cf) w1).
+      { intros D1 H1 LL S1 S2. exists D1, kinds, H1. split; [split; assumption|]. split; [exact N1|].
+        apply (OW_close_factory cf D D1 w1 f fa); [|rewrite EF1; exact Ef | exact S1 | exact S2].
+        eapply OW_same; [exact ES1 | exact EF1 | rewrite <- (Iv_len kinds _ X), <- (Iv_len kinds _ HI0); reflexivity | exact O0]. }
+      destruct Y1 as [Y1|[H' [_ Y1]]].
+      - apply (Fin1 D H Y1); [tauto | intros c Dc; left; exact Dc].
+      - apply (Fin1 (Dopt D c1) H' Y1).
+        + intros c Dc. unfold c1. destruct (use_shared_ik (fa_policy fa)); [|exact Dc]. destruct (fa_ik fa); cbn [Dopt]; [left; exact Dc | exact Dc].
+        + intros c Dc. destruct (Sub1 c Dc) as [Z|Z]; [left; exact Z | right; right; exact Z]. }
+    assert (Lv2 : cache_live (Dopt D c1) (fa_sk fa)) by (intros cs Es; exact (Ne cs Es)).
+    pose proof (kc_close_opt_L (Dopt D c1) H (fa_sk fa) Lv2 w1 Y1) as Y2.
+    pose proof (qS_kc_close (fa_sk fa) w1) as ES2. pose proof (qF_kc_close (fa_sk fa) w1) as [EF2 _].
+    pose proof (no_scache_qF _ w1 (qF_kc_close (fa_sk fa)) N1) as N2.
+    assert (Fin2 : forall w2 D2 H2, LInv D2 NoX H2 w2 -> Iv kinds w2 -> no_scache w2 -> w_sessions w2 = w_sessions w1 -> w_factories w2 = w_factories w1 ->
+              (forall c, D c -> D2 c) -> (forall c, D2 c -> D c \/ fa_sk fa = Some c \/ fa_ik fa = Some c) -> HILD (f :: cf) w2).
+    { intros w2 D2 H2 LL HI2 NN Es2 Ef2 S1 S2. exists D2, kinds, H2. split; [split; assumption|]. split; [exact NN|].
+      apply (OW_close_factory cf D D2 w2 f fa); [|rewrite Ef2, EF1; exact Ef | exact S1 | exact S2].
+      eapply OW_same; [rewrite Es2; exact ES1 | rewrite Ef2; exact EF1 | rewrite <- (Iv_len kinds _ HI2), <- (Iv_len kinds _ HI0); reflexivity | exact O0]. }
+    assert (Up1 : forall c, D c -> Dopt D c1 c).
+    { intros c Dc. unfold c1. destruct (use_shared_ik (fa_policy fa)); [|exact Dc]. destruct (fa_ik fa); cbn [Dopt]; [left; exact Dc | exact Dc]. }
+    assert (Up2 : forall c, Dopt D c1 c -> Dopt (Dopt D c1) (fa_sk fa) c) by (intros c Dc; destruct (fa_sk fa); cbn [Dopt]; [left; exact Dc | exact Dc]).
+    assert (Sub2 : forall c, Dopt (Dopt D c1) (fa_sk fa) c -> D c \/ fa_sk fa = Some c \/ fa_ik fa = Some c).
+    { intros c Dc. destruct (fa_sk fa) as [cs|] eqn:Es; cbn [Dopt] in Dc.
+      - destruct Dc as [Dc|Eq]; [destruct (Sub1 c Dc) as [Z|Z]; [left; exact Z | right; right; exact Z] | right; left; congruence].
+      - destruct (Sub1 c Dc) as [Z|Z]; [left; exact Z | right; right; exact Z]. }
+    destruct (kc_close (fa_sk fa) w1) as [[er|u2] w2]; cbn [snd h_world] in *.
+    + destruct Y2 as [Y2|[H' [_ Y2]]].
+      * apply (Fin2 w2 (Dopt D c1) H Y2 X N2 ES2 EF2 Up1). intros c Dc. destruct (Sub1 c Dc) as [Z|Z]; [left; exact Z | right; right; exact Z].
+      * apply (Fin2 w2 (Dopt (Dopt D c1) (fa_sk fa)) H' Y2 X N2 ES2 EF2); [intros c Dc; exact (Up2 c (Up1 c Dc)) | exact Sub2].
+    + apply (Fin2 w2 (Dopt (Dopt D c1) (fa_sk fa)) H Y2 X N2 ES2 EF2); [intros c Dc; exact (Up2 c (Up1 c Dc)) | exact Sub2].
   - (* clock *)
     cbn [snd h_world]. destruct HIL0 as [HI L]. exists D, kinds, H.
     split; [split; [eapply Iv_ext; [..|exact HI]; reflexivity | eapply LInv_bookkeeping; [..|exact L]; reflexivity]|]. split; [exact NSc|]. eapply OW_same; [..|exact O]; reflexivity.
@@ -507,50 +650,52 @@ Proof.
     split; [apply Iv_store_flagged; [apply revoke_flagged | exact HI] | eapply LInv_bookkeeping; [..|exact L]; reflexivity].
 Qed.
 
-
-(* histories: every operation is one the theorem covers and none addresses a session after its Close *)
-Fixpoint okrun (h : hstate) (ops : list hop) : Prop :=
+(* histories: every operation is one the theorem covers, none addresses a session after its Close or after its factory's Close, and
+   nothing is closed twice; cf accumulates the factories closed so far *)
+Fixpoint okrun (cf : list nat) (h : hstate) (ops : list hop) : Prop :=
   match ops with
   | [] => True
-  | o :: r => benignD o /\ live_op (h_world h) o /\ okrun (snd (hstep h o)) r
+  | o :: r => benignD o /\ live_op cf (h_world h) o /\ okrun (cf_after cf o) (snd (hstep h o)) r
   end.
+Fixpoint cf_run (cf : list nat) (ops : list hop) : list nat :=
+  match ops with [] => cf | o :: r => cf_run (cf_after cf o) r end.
 
-Lemma hrunD_inv ops : forall h, okrun h ops -> HILD (h_world h) -> HILD (h_world (snd (hrun h ops))).
+Lemma hrunD_inv ops : forall cf h, okrun cf h ops -> HILD cf (h_world h) -> HILD (cf_run cf ops) (h_world (snd (hrun h ops))).
 Proof.
-  induction ops as [|o ops IH]; intros h OK HI; cbn [hrun]; [exact HI|].
+  induction ops as [|o ops IH]; intros cf h OK HI; cbn [hrun cf_run]; [exact HI|].
   destruct OK as [Bo [Lo OKr]].
-  pose proof (hstepD_inv h o Bo Lo HI) as H1. destruct (hstep h o) as [[res ev] h1]. cbn [snd] in H1, OKr.
-  specialize (IH h1 OKr H1). destruct (hrun h1 ops) as [rest hf]. exact IH.
+  pose proof (hstepD_inv cf h o Bo Lo HI) as H1. destruct (hstep h o) as [[res ev] h1]. cbn [snd] in H1, OKr.
+  specialize (IH _ h1 OKr H1). destruct (hrun h1 ops) as [rest hf]. exact IH.
 Qed.
 
-Lemma benignD_cases o : benignD o -> benignL svc prod o \/ exists s0, o = HCloseSession s0.
-Proof. destruct o; cbn [benignD benignL]; try tauto. intros _. right. eexists. reflexivity. Qed.
+Lemma benignD_cases o : benignD o -> benignL svc prod o \/ sdk_op o = true.
+Proof. destruct o; cbn [benignD benignL]; try tauto; intros _; right; reflexivity. Qed.
 
 Lemma benignD_benign o : benignD o -> benign svc prod o.
 Proof. destruct o; cbn [benignD benign]; tauto. Qed.
 
-Lemma okrun_benign ops : forall h, okrun h ops -> Forall (benign svc prod) ops.
+Lemma okrun_benign ops : forall cf h, okrun cf h ops -> Forall (benign svc prod) ops.
 Proof.
-  induction ops as [|o ops IH]; intros h OK; [constructor|]. destruct OK as [Bo [_ OKr]]. constructor; [exact (benignD_benign o Bo) | exact (IH _ OKr)].
+  induction ops as [|o ops IH]; intros cf h OK; [constructor|]. destruct OK as [Bo [_ OKr]]. constructor; [exact (benignD_benign o Bo) | exact (IH _ _ OKr)].
 Qed.
 
 Lemma genuine_hstepD h o pid d p :
   benignD o -> genuine (w_store (h_world h)) pid d p -> genuine (w_store (h_world (snd (hstep h o)))) pid d p.
 Proof.
-  intros B G. destruct (benignD_cases o B) as [BL|[s0 ->]]; [exact (genuine_hstep svc prod h o pid d p BL G)|].
-  destruct (sdk_step_R Rs Rs_frame h (HCloseSession s0) eq_refl) as [K _]. eapply genuine_kept; [exact K | exact G].
+  intros B G. destruct (benignD_cases o B) as [BL|SO]; [exact (genuine_hstep svc prod h o pid d p BL G)|].
+  destruct (sdk_step_R Rs Rs_frame h o SO) as [K _]. eapply genuine_kept; [exact K | exact G].
 Qed.
 
-Lemma genuine_hrunD ops : forall h pid d p,
-  okrun h ops -> genuine (w_store (h_world h)) pid d p -> genuine (w_store (h_world (snd (hrun h ops)))) pid d p.
+Lemma genuine_hrunD ops : forall cf h pid d p,
+  okrun cf h ops -> genuine (w_store (h_world h)) pid d p -> genuine (w_store (h_world (snd (hrun h ops)))) pid d p.
 Proof.
-  induction ops as [|o ops IH]; intros h pid d p OK G; cbn [hrun]; [exact G|].
+  induction ops as [|o ops IH]; intros cf h pid d p OK G; cbn [hrun]; [exact G|].
   destruct OK as [Bo [_ OKr]].
   pose proof (genuine_hstepD h o pid d p Bo G) as G1. destruct (hstep h o) as [[res ev] h1]. cbn [snd] in G1, OKr.
-  specialize (IH h1 pid d p OKr G1). destruct (hrun h1 ops) as [rest hf]. exact IH.
+  specialize (IH _ h1 pid d p OKr G1). destruct (hrun h1 ops) as [rest hf]. exact IH.
 Qed.
 
-Lemma HILD_init t0 : HILD (h_world (hinit t0)).
+Lemma HILD_init t0 : HILD [] (h_world (hinit t0)).
 Proof.
   destruct (HIL_init (fun _ => False) svc prod t0) as [kinds [H [HI N]]]. exists (fun _ => False), kinds, H. split; [exact HI|]. split; [exact N|].
   constructor; cbn.
@@ -560,46 +705,51 @@ Proof.
   - intros s x cid Hs. destruct s; discriminate Hs.
   - intros f fa cid Hf. destruct f; discriminate Hf.
   - intros s x cid Hs. destruct s; discriminate Hs.
+  - intros f fa f' fa' cid Hf. destruct f; discriminate Hf.
+  - intros s x Hs. destruct s; discriminate Hs.
 Qed.
 
 Theorem closing_invariants_reachable_own t0 ops :
-  okrun (hinit t0) ops -> HInv svc prod (snd (hrun (hinit t0) ops)) /\ HILD (h_world (snd (hrun (hinit t0) ops))).
+  okrun [] (hinit t0) ops -> HInv svc prod (snd (hrun (hinit t0) ops)) /\ HILD (cf_run [] ops) (h_world (snd (hrun (hinit t0) ops))).
 Proof.
   intro OK. split.
-  - apply invariant_reachable. exact (okrun_benign ops _ OK).
-  - exact (hrunD_inv ops (hinit t0) OK (HILD_init t0)).
+  - apply invariant_reachable. exact (okrun_benign ops _ _ OK).
+  - exact (hrunD_inv ops [] (hinit t0) OK (HILD_init t0)).
 Qed.
 
-(* a recorded genuine record decrypts in any OPEN session of its partition *)
-Theorem open_decrypt_of_recorded h s x j d n :
-  HILD (h_world h) -> nz_store (w_store (h_world h)) -> nth_error (w_sessions (h_world h)) s = Some x -> ss_torn x = false ->
+(* a recorded genuine record decrypts in any OPEN session of its partition (its own Close has not run, nor its factory's) *)
+Theorem open_decrypt_of_recorded cf h s x j d n :
+  HILD cf (h_world h) -> nz_store (w_store (h_world h)) -> nth_error (w_sessions (h_world h)) s = Some x -> ss_torn x = false ->
+  ~ In (ss_factory x) cf ->
   nth_error (h_recs h) j = Some d -> genuine (w_store (h_world h)) (p_id (ss_part x)) d (PPayload n) ->
   fst (fst (hstep h (HDecrypt s j [] []))) = ODec (Some n).
 Proof.
-  intros [D [kinds [H [HIL0 [_ O]]]]] NZ Hs T Hj G. cbn [hstep]. rewrite Hj. cbn [fold_left].
-  assert (Op : open_sess (h_world h) s) by (intros x' Hx'; rewrite Hs in Hx'; inversion Hx'; subst x'; exact T).
-  pose proof (genuine_decrypts_live D svc prod kinds H (h_world h) s x d (PPayload n) HIL0 (OW_sess_live D _ s O Op) NZ Hs G) as X.
+  intros [D [kinds [H [HIL0 [_ O]]]]] NZ Hs T NF Hj G. cbn [hstep]. rewrite Hj. cbn [fold_left].
+  assert (Op : open_sess cf (h_world h) s) by (intros x' Hx'; rewrite Hs in Hx'; inversion Hx'; subst x'; split; assumption).
+  pose proof (genuine_decrypts_live D svc prod kinds H (h_world h) s x d (PPayload n) HIL0 (OW_sess_live cf D _ s O Op) NZ Hs G) as X.
   destruct ((e <- session_env s;; decrypt_data_row_record e d) (begin_op [] (h_world h))) as [r w']. cbn [fst] in *. rewrite X. reflexivity.
 Qed.
 
-(* Encrypt; then anything - factories, sessions, encrypts and decrypts with any fault plans, clock changes, revocations, and
-   Session.Close of sessions that own their intermediate-key cache (which destroys that cache) - as long as nothing is invoked on
-   a closed session; then a fault-free Decrypt in any open session of the same partition id: the payload comes back *)
-Theorem encrypt_then_decrypt_own_closing h s1 x1 payload faults :
-  HInv svc prod h -> HILD (h_world h) -> nth_error (w_sessions (h_world h)) s1 = Some x1 -> ss_torn x1 = false ->
+(* Encrypt; then anything - factories, sessions, encrypts and decrypts with any fault plans, clock changes, revocations, Session.Close of
+   sessions that own their intermediate-key cache (which destroys that cache) and SessionFactory.Close (which destroys the factory's
+   system-key cache and shared intermediate-key cache) - as long as nothing is invoked on a closed session or on a session of a closed
+   factory; then a fault-free Decrypt in any open session of the same partition id, of any factory still open: the payload comes back *)
+Theorem encrypt_then_decrypt_own_closing cf h s1 x1 payload faults :
+  HInv svc prod h -> HILD cf (h_world h) -> nth_error (w_sessions (h_world h)) s1 = Some x1 -> ss_torn x1 = false -> ~ In (ss_factory x1) cf ->
   match hstep h (HEncrypt s1 payload faults) with
   | (OEnc _ _, _, h1) =>
-      forall ops s2 x2, okrun h1 ops ->
+      forall ops s2 x2, okrun cf h1 ops ->
         let h2 := snd (hrun h1 ops) in
         nz_store (w_store (h_world h2)) -> nth_error (w_sessions (h_world h2)) s2 = Some x2 -> ss_torn x2 = false ->
+        ~ In (ss_factory x2) (cf_run cf ops) ->
         p_id (ss_part x2) = p_id (ss_part x1) ->
         fst (fst (hstep h2 (HDecrypt s2 (List.length (h_recs h)) [] []))) = ODec (Some payload)
   | _ => True
   end.
 Proof.
-  intros HV HL Hs T1.
-  assert (Op1 : open_sess (h_world h) s1) by (intros x' Hx'; rewrite Hs in Hx'; inversion Hx'; subst x'; exact T1).
-  pose proof (hstepD_inv h (HEncrypt s1 payload faults) I Op1 HL) as HL1.
+  intros HV HL Hs T1 NF1.
+  assert (Op1 : open_sess cf (h_world h) s1) by (intros x' Hx'; rewrite Hs in Hx'; inversion Hx'; subst x'; split; assumption).
+  pose proof (hstepD_inv cf h (HEncrypt s1 payload faults) I Op1 HL) as HL1. cbn [cf_after] in HL1.
   destruct HV as [[kinds HI] RO]. cbn [hstep] in *.
   assert (HI0 : Iv kinds (begin_op faults (h_world h))) by (eapply Iv_ext; [..|exact HI]; reflexivity).
   set (w0 := begin_op faults (h_world h)) in *.
@@ -614,25 +764,25 @@ Proof.
   { destruct er; exact I. }
   destruct Y as [_ G]. destruct (d_key d) as [k|]; [|exact I]. destruct (e_parent k); [|exact I].
   cbv beta iota.
-  intros ops s2 x2 OK NZ Hs2 T2 Epid.
+  intros ops s2 x2 OK NZ Hs2 T2 NF2 Epid.
   set (h1 := {| h_world := w1; h_recs := h_recs h ++ [d] |}) in *.
   set (h2 := snd (hrun h1 ops)) in *.
   change (fst (fst (hstep h2 (HDecrypt s2 (List.length (h_recs h)) [] []))) = ODec (Some payload)).
   assert (Hj : nth_error (h_recs h2) (List.length (h_recs h)) = Some d).
   { apply recs_hrun_prefix. cbn [h_recs h1]. rewrite nth_error_app2 by lia. rewrite Nat.sub_diag. reflexivity. }
-  apply (open_decrypt_of_recorded h2 s2 x2 _ d payload); [exact (hrunD_inv ops h1 OK HL1) | exact NZ | exact Hs2 | exact T2 | exact Hj |].
-  rewrite Epid. exact (genuine_hrunD ops h1 _ d _ OK G).
+  apply (open_decrypt_of_recorded (cf_run cf ops) h2 s2 x2 _ d payload); [exact (hrunD_inv ops cf h1 OK HL1) | exact NZ | exact Hs2 | exact T2 | exact NF2 | exact Hj |].
+  rewrite Epid. exact (genuine_hrunD ops cf h1 _ d _ OK G).
 Qed.
 
-(* what an open session can reach through its caches - the keys cached in its intermediate-key cache (its own or the shared one) and
-   in its factory's system-key cache - has not been destroyed, whatever other sessions have been closed *)
-Theorem open_sessions_cached_keys_open w : HILD w ->
-  forall s x fa cid kc ks e, nth_error (w_sessions w) s = Some x -> ss_torn x = false -> nth_error (w_factories w) (ss_factory x) = Some fa ->
+(* what an open session can reach through its caches has not been destroyed, whatever other sessions and factories have been closed *)
+Theorem open_sessions_cached_keys_open cf w : HILD cf w ->
+  forall s x fa cid kc ks e, nth_error (w_sessions w) s = Some x -> ss_torn x = false -> ~ In (ss_factory x) cf ->
+    nth_error (w_factories w) (ss_factory x) = Some fa ->
     ss_ik x = Some cid \/ fa_sk fa = Some cid -> nth_error (w_caches w) cid = Some kc -> b_abs (kc_backing kc) ks = Some e -> open_k w (ce_key e).
 Proof.
-  intros [D [kinds [H [[_ L] [_ O]]]]] s x fa cid kc ks e Hs T Hf Hc Hk Hb.
+  intros [D [kinds [H [[_ L] [_ O]]]]] s x fa cid kc ks e Hs T NF Hf Hc Hk Hb.
   assert (ND : ~ D cid).
-  { destruct Hc as [Hc|Hc]; [exact (proj2 (ow_sess D w O s x Hs) T cid Hc) | exact (proj1 (ow_fact D w O _ fa Hf) cid Hc)]. }
+  { destruct Hc as [Hc|Hc]; [exact (proj2 (ow_sess cf D w O s x Hs) T (or_intror NF) cid Hc) | exact (proj1 (ow_fact cf D w O _ fa Hf NF) cid Hc)]. }
   apply (l_cached _ _ _ _ L (ce_key e)). exists cid, ks, e. split; [split; [exact ND | exists kc; split; assumption]|]. split; [intros []|reflexivity].
 Qed.
 
@@ -644,15 +794,18 @@ End CloseD.
    are gone, which is why the theorem is about open sessions.) *)
 Definition own_closing_ops : list hop :=
   [HNewFactory Rotation.pol100 (s "svc") (s "prod") None; HGetSession 0 (s "p"); HEncrypt 0 5 []; HGetSession 0 (s "p"); HDecrypt 1 0 [] [];
-   HCloseSession 0; HAdvance (20 * sec); HGetSession 0 (s "p"); HEncrypt 1 6 []].
+   HCloseSession 0; HAdvance (20 * sec); HNewFactory Rotation.pol100 (s "svc") (s "prod") None; HGetSession 1 (s "p"); HDecrypt 2 0 [] [];
+   HCloseSession 1; HCloseFactory 0; HEncrypt 2 6 []].
 
 Example own_closing_nonvacuous :
   let h := snd (hrun (hinit Rotation.t0) own_closing_ops) in
-  okrun (s "svc") (s "prod") (hinit Rotation.t0) own_closing_ops /\ nz_storeb (w_store (h_world h)) = true /\
-  fst (fst (hstep h (HDecrypt 1 0 [] []))) = ODec (Some 5%nat) /\ fst (fst (hstep h (HDecrypt 2 0 [] []))) = ODec (Some 5%nat) /\
+  okrun (s "svc") (s "prod") [] (hinit Rotation.t0) own_closing_ops /\ cf_run [] own_closing_ops = [0%nat] /\
+  nz_storeb (w_store (h_world h)) = true /\
+  fst (fst (hstep h (HDecrypt 2 0 [] []))) = ODec (Some 5%nat) /\ fst (fst (hstep h (HDecrypt 2 1 [] []))) = ODec (Some 6%nat) /\
   fst (fst (hstep h (HDecrypt 0 0 [] []))) <> ODec (Some 5%nat).
 Proof.
-  split; [|split; [vm_compute; reflexivity|]; split; [vm_compute; reflexivity|]; split; [vm_compute; reflexivity | vm_compute; discriminate]].
-  cbn [okrun own_closing_ops benignD live_op]. repeat split; try exact I; try (vm_compute; tauto);
-    try (intros x Hx; vm_compute in Hx; inversion Hx; reflexivity).
+  split; [|split; [reflexivity|]; split; [vm_compute; reflexivity|]; split; [vm_compute; reflexivity|]; split; [vm_compute; reflexivity | vm_compute; discriminate]].
+  cbn [okrun own_closing_ops benignD live_op cf_after]. repeat split; try exact I; try (vm_compute; tauto);
+    try (intros x Hx; vm_compute in Hx; inversion Hx; try reflexivity; try (split; [reflexivity | cbn; tauto])); try (cbn; tauto).
+  all: match goal with Hx : nth_error _ _ = Some _ |- _ => vm_compute in Hx; inversion Hx; subst; cbn; try reflexivity; try (intros [Eq|[]]; discriminate Eq) end.
 Qed.
